@@ -125,7 +125,16 @@ def diff_geq_leq_zero(f: Expr, s: Symbol, bounds: tuple[tuple[Symbol, int, int],
     if isinstance(f, sympy.Eq):
         return ComparisonResult.UNKNOWN
 
-    return geq_leq_zero(diff(sympy.expand(f), s), bounds)
+    f = sympy.expand(f)
+    # ceiling(g(s)) has no symbolic derivative and _compare_to_zero treats a ceiling as the
+    # identity; that is unsound when s is differentiated through a ceiling (s*ceiling(N/s)
+    # is a sawtooth in s, not a constant), so give up instead of guessing.
+    if isinstance(f, sympy.Expr) and any(
+        s in c.free_symbols for c in f.atoms(sympy.ceiling, sympy.floor)
+    ):
+        return ComparisonResult.UNKNOWN
+
+    return geq_leq_zero(diff(f, s), bounds)
 
 
 @lru_cache(maxsize=10000)
